@@ -195,6 +195,23 @@ where
             let param = ValidationErrorKind::IndexMagicByte;
             return Err(Error::validation(param, "Index magic byte is not valid").into());
         }
+        // Record headers are the last section of the file. The header (with the 'is_written' flag)
+        // is rewritten in place before the file is synced, so it can survive a power loss that the tail did not
+        let expected_size = (self.header.records_count as u64)
+            .checked_mul(self.header.record_header_size as u64)
+            .and_then(|headers_size| headers_size.checked_add(self.metadata.leaves_offset));
+        if expected_size.map_or(true, |expected_size| self.file.size() < expected_size) {
+            let param = ValidationErrorKind::IndexNotWritten;
+            return Err(Error::validation(
+                param,
+                format!(
+                    "Index is incomplete (file size is {}, but {:?} expected)",
+                    self.file.size(),
+                    expected_size
+                ),
+            )
+            .into());
+        }
         Ok(())
     }
 
